@@ -19,7 +19,8 @@ license's symbol and renders as the canonical key, for every table that is unamb
 matcher's own terms (`namesUniqueB`, a decidable check the driver evaluates on every table of the
 run). `C04_in_context` is the general statement: in any expression, every operand written as any stored
 name of its license — any letter case, any blanks between its words and around parentheses inside
-an alias — is resolved to that license, and the text parses to the tree of its skeleton. Its
+an alias — is resolved to that license, an operand made of words that occur in no stored name
+becomes the unknown license those words spell, and the text parses to the tree of its skeleton. Its
 premises on the table: no stored name of several words contains an operator word or a parenthesis
 (`OpWordFree` — the proviso "no longer known name extends beyond the operand" made a property of the
 table), no name reads as a bare operator (`KwOwned`), and each name belongs to one license
@@ -135,7 +136,8 @@ theorem C04_alone_validates (c : Cls) (hc : ClsOK c) (T : Table) (hu : namesUniq
 /-- **C04 (an operand wherever it stands)**: let a text fall into the segments of a skeleton `ts`
     (`SegsFor`): `and`, `or`, `with` and the parentheses each on a word of their own, in any letter
     case; every license as a run of words that reads as a stored name of that license — its key or
-    any alias, in any letter case, with any amount and kind of whitespace between the words. Then, for
+    any alias, in any letter case, with any amount and kind of whitespace between the words —, or, for
+    an unknown license, a run of words none of which occurs in a stored name (`OperandSeg`). Then, for
     a table whose multi-word names contain no operator word or parenthesis, the text parses to
     exactly what the skeleton parses to: every operand is resolved to its license, whatever stands
     around it. -/
